@@ -151,6 +151,8 @@ pub trait Lin: Scheme<F = Fr> {
     fn distance(ck: &Ck<Self>) -> (usize, usize);
     /// the code's relative distance derived from the parameter fields by the harness
     fn ref_distance(ck: &Ck<Self>) -> Result<(usize, usize), String>;
+    /// the polynomial whose coefficient / evaluation vector (as `poly_to_vec` lays it out) is `v`
+    fn from_vec(v: Vec<Fr>, like: &Self::P) -> Self::P;
     /// verifier key with one parameter changed (see `tweak_ligero_vk`)
     fn tweak_vk(vk: &Vk<Self>, what: &str, seed: u64) -> Option<Vk<Self>>;
     /// the distance every harness-side computation uses (falls back to the library's report only if the
@@ -166,7 +168,7 @@ pub trait Lin: Scheme<F = Fr> {
 }
 
 macro_rules! lin_impl {
-    ($s:ty, $enc:ty, $pv:expr, $rd:expr, $tw:expr) => {
+    ($s:ty, $enc:ty, $pv:expr, $rd:expr, $tw:expr, $fv:expr) => {
         impl Lin for $s {
             type Enc = $enc;
             fn sec_param(ck: &Ck<Self>) -> usize {
@@ -177,6 +179,9 @@ macro_rules! lin_impl {
             }
             fn ref_distance(ck: &Ck<Self>) -> Result<(usize, usize), String> {
                 ($rd)(ck)
+            }
+            fn from_vec(v: Vec<Fr>, like: &Self::P) -> Self::P {
+                ($fv)(v, like)
             }
             fn tweak_vk(vk: &Vk<Self>, what: &str, seed: u64) -> Option<Vk<Self>> {
                 ($tw)(vk, what, seed)
@@ -197,9 +202,18 @@ macro_rules! lin_impl {
     };
 }
 
-lin_impl!(ULigero, ULigeroEnc, |p: &Fr| vec![*p], ligero_ref_distance, tweak_ligero_vk);
-lin_impl!(MLigero, MLigeroEnc, |p: &Vec<Fr>| p.clone(), ligero_ref_distance, tweak_ligero_vk);
-lin_impl!(Brakedown, BrakedownEnc, |p: &Vec<Fr>| p.clone(), brakedown_ref_distance, tweak_brakedown_vk);
+lin_impl!(ULigero, ULigeroEnc, |p: &Fr| vec![*p], ligero_ref_distance, tweak_ligero_vk, |v: Vec<Fr>, _l: &UniPoly| {
+    use ark_poly::DenseUVPolynomial;
+    UniPoly::from_coefficients_vec(v)
+});
+lin_impl!(MLigero, MLigeroEnc, |p: &Vec<Fr>| p.clone(), ligero_ref_distance, tweak_ligero_vk, |mut v: Vec<Fr>, l: &MLE| {
+    v.resize(1usize << l.num_vars, Fr::zero());
+    MLE::from_evaluations_vec(l.num_vars, v)
+});
+lin_impl!(Brakedown, BrakedownEnc, |p: &Vec<Fr>| p.clone(), brakedown_ref_distance, tweak_brakedown_vk, |mut v: Vec<Fr>, l: &MLE| {
+    v.resize(1usize << l.num_vars, Fr::zero());
+    MLE::from_evaluations_vec(l.num_vars, v)
+});
 
 pub fn encode<S: Lin>(ck: &Ck<S>, msg: &[Fr]) -> Out<Vec<Fr>> {
     crate::util::guard(|| <S::Enc as LinearEncode<Fr, MTConfig, S::P, ColHasher>>::encode(msg, ck))
@@ -320,6 +334,67 @@ pub fn ref_matrices<S: Lin>(
         ext.push(encode::<S>(ck, r).need("encode")?);
     }
     Ok((n_rows, n_cols, rows, ext))
+}
+
+/// A non-zero message x (length n_cols) whose encoding vanishes on the first `m` positions, found by
+/// Gaussian elimination over the encodings of the unit vectors (the code is linear); None if only x = 0 does.
+pub fn message_vanishing_on_prefix<S: Lin>(ck: &Ck<S>, n_cols: usize, m: usize, seed: u64) -> Option<Vec<Fr>> {
+    use ark_ff::Field;
+    // a[j][i] = E(e_i)[j] for j < m: solve a x = 0
+    let mut a = vec![vec![Fr::zero(); n_cols]; m];
+    for i in 0..n_cols {
+        let mut e = vec![Fr::zero(); n_cols];
+        e[i] = Fr::from(1u64);
+        let Out::Ok(w) = encode::<S>(ck, &e) else { return None };
+        if w.len() < m {
+            return None;
+        }
+        for j in 0..m {
+            a[j][i] = w[j];
+        }
+    }
+    // row-reduce
+    let mut pivot_col_of_row: Vec<usize> = Vec::new();
+    let mut r = 0;
+    for c in 0..n_cols {
+        if r == m {
+            break;
+        }
+        let Some(p) = (r..m).find(|k| !a[*k][c].is_zero()) else { continue };
+        a.swap(r, p);
+        let inv = a[r][c].inverse().unwrap();
+        for x in a[r].iter_mut() {
+            *x *= inv;
+        }
+        for k in 0..m {
+            if k != r && !a[k][c].is_zero() {
+                let f = a[k][c];
+                let (rr, kk) = if k < r { let (lo, hi) = a.split_at_mut(r); (&hi[0], &mut lo[k]) } else { let (lo, hi) = a.split_at_mut(k); (&lo[r], &mut hi[0]) };
+                for (y, x) in kk.iter_mut().zip(rr.iter()) {
+                    *y -= f * x;
+                }
+            }
+        }
+        pivot_col_of_row.push(c);
+        r += 1;
+    }
+    let free: Vec<usize> = (0..n_cols).filter(|c| !pivot_col_of_row.contains(c)).collect();
+    if free.is_empty() {
+        return None;
+    }
+    // one free variable set to a random non-zero value, the others to zero
+    let fc = free[(seed % free.len() as u64) as usize];
+    let mut g = crate::util::rng(seed);
+    let mut val = <Fr as ark_ff::UniformRand>::rand(&mut g);
+    if val.is_zero() {
+        val = Fr::from(1u64);
+    }
+    let mut x = vec![Fr::zero(); n_cols];
+    x[fc] = val;
+    for (row, pc) in pivot_col_of_row.iter().enumerate() {
+        x[*pc] = -a[row][fc] * val;
+    }
+    Some(x)
 }
 
 pub fn columns_of(ext: &[Vec<Fr>]) -> Vec<Vec<Fr>> {
